@@ -11,8 +11,10 @@ import subprocess
 import sys
 import time
 
-OUT = sys.argv[1]
-SEEDS = sys.argv[2:]
+OWN_ONLY = "--own-only" in sys.argv
+args = [a for a in sys.argv[1:] if a != "--own-only"]
+OUT = args[0]
+SEEDS = args[1:]
 ROOT = "/tmp/seedrun"
 CHECKS = ["C%02d" % i for i in range(1, 19)]
 
@@ -70,7 +72,9 @@ def main():
             else:
                 t = sh(f"cd {ROOT}/repo && /venv/bin/python -m pytest -q -p no:cacheprovider tests 2>&1 | tail -1").stdout.strip()
                 d1 = sh(f"PYAB_SRC={ROOT}/repo/src /venv/bin/python {sd}/demo{n}.py").returncode
-                res = [run_check(c, 0) for c in CHECKS]
+                own = meta.get("property") or os.path.basename(sd.rstrip("/")).split("_")[-1]
+                order = [own] + ([] if OWN_ONLY else [c for c in CHECKS if c != own])
+                res = [run_check(c, 0) for c in order]
                 rec = {"seed": name, "property": meta.get("property"), "summary": meta.get("summary"), "tests": t, "demo_mutated": d1,
                        "caught_by": [r["check"] for r in res if r["exit"] == 1], "infra": [r["check"] for r in res if r["exit"] not in (0, 1)],
                        "results": res}
